@@ -290,11 +290,14 @@ class ImageWriter:
         return False
 
     def _create_unique_image_name(self, image: LTImage, ext: str) -> Tuple[str, str]:
-        name = image.name + ext
+        # The image name comes from the document: keep only its last path
+        # component so that the file is always created inside outdir.
+        basename = os.path.basename(image.name.replace("\0", ""))
+        name = basename + ext
         path = os.path.join(self.outdir, name)
         img_index = 0
         while os.path.exists(path):
-            name = "%s.%d%s" % (image.name, img_index, ext)
+            name = "%s.%d%s" % (basename, img_index, ext)
             path = os.path.join(self.outdir, name)
             img_index += 1
         return name, path
